@@ -319,6 +319,8 @@ def rule_bounds(prog: Program, col: Collector) -> None:
         _check_table(ob, prog, struct, analysed)
     if pid == "C03":
         _check_siblings(ob, prog, sa, struct, comps)
+    elif pid in ("C01", "C02", "C04", "C07", "C08"):
+        _check_cache_hygiene(ob.col, prog, struct)
     if struct_error is not None:
         raise AnalysisError(struct_error)
     if pid == "C04":
@@ -394,6 +396,10 @@ def _check_computer(ob: _Ob, comp: Computer, is_sam: bool) -> None:
                      "skipping the write for some unknown coalition leaves a stale bound")
     lbs = [w for w in comp.writes if w.col == "LB" and w.loop_ev is not None]
     ubs = [w for w in comp.writes if w.col == "UB" and w.loop_ev is not None]
+    for colname, ws0 in (("lower", lbs), ("upper", ubs)):
+        if not ws0:
+            ob.col.undecidable(ref.where(), fn, f"no per-coalition set_{colname}_bound(v, c) write inside a loop over the unknown coalitions "
+                               "(vectorised / bulk redesign: outside the recognised idiom family)", rule="B2")
     # ---- B3 order of the first LB loop
     if lbs:
         first = min(lbs, key=lambda w: w.ev.seq)
@@ -430,7 +436,11 @@ def _check_computer(ob: _Ob, comp: Computer, is_sam: bool) -> None:
                 pass
             ob.col.undecidable(where, fn, f"{w.col} value not understood: {show_num(w.value)} {w.unrec[:2]}",
                                rule="B6s" if w.col == "LB" else "B7s") if ob.pid in P_ALL else None
-            continue
+            # recognised parts are still checked: a knowledge filter or a wrong column is a violation whatever else the expression contains
+            def _q(n):
+                return isinstance(n, tuple) and (n[0] == "?" or any(_q(x) for x in n[1:] if isinstance(x, tuple)))
+            if _q(w.value):
+                continue
         if w.col == "LB":
             _check_lb(ob, comp, w, is_sam)
         else:
@@ -447,9 +457,9 @@ def _alts(w: Write):
         for t, taken in conds:
             p = _phase_applicability(t, taken, w.outer)
             if p is None:
-                undecided = True
-            else:
-                at0, later = at0 and p[0], later and p[1]
+                # a data-dependent branch: either alternative can run in every phase, so each one has to satisfy the obligations
+                continue
+            at0, later = at0 and p[0], later and p[1]
         if not at0 and not later and not undecided:
             continue        # dead branch
         out.append((at0, later, undecided, normalise_num(v)))
@@ -464,6 +474,19 @@ def _check_lb(ob: _Ob, comp: Computer, w: Write, is_sam: bool) -> None:
         if undec:
             ob.und("B4", {"C01", "C04", "C08", "C07"}, where, fn, "branch condition on something other than the repetition counter")
             continue
+        if v[0] == "MAX2":
+            extra = [x for x in (v[1], v[2]) if x[0] in ("LB", "UB", "VAL", "KV", "KNV")]
+            main = [x for x in (v[1], v[2]) if x[0] in ("MAX", "MIN", "INIT")]
+            own = any(isinstance(x[1], Single) for x in extra)
+            ob.check("B6s", {"C01", "C02", "C03", "C04", "C07", "C08"}, False, where, fn,
+                     "the lower bound is the reduction over the splits only (found max(<splits>, " + ", ".join(show_num(x) for x in extra) + "))",
+                     "lb-max-with-previous" if own else "lb-max-with-extra",
+                     "taking the maximum with the row's own previous bound keeps stale bounds of an earlier knowledge state: after an un-reveal (or a bulk reset "
+                     "to another game with the same known set) lower bounds can only grow - the two computers disagree and undo is inexact")
+            if main:
+                v = main[0]
+            else:
+                continue
         if v[0] == "INIT":
             ob.check("B6s", {"C01", "C02", "C03", "C04", "C07", "C08"}, False, where, fn,
                      f"the lower bound is the reduction over the splits only (found an extra candidate initial={v[3]})", "lb-reduction-initial",
@@ -697,31 +720,7 @@ def _view_root(t: Term, root_pred) -> bool:
     return False
 
 
-def _check_siblings(ob: _Ob, prog: Program, sa: list[Computer], struct: StructInfo | None, comps) -> None:
-    col = ob.col
-    # ---- B8
-    col.rule("B8", "after normalisation the write schedules of 'superadditive' and 'superadditive_cached' are equal term for term", 1)
-
-    def schedule(c: Computer) -> list[str]:
-        out = []
-        for w in sorted(c.writes, key=lambda w: w.ev.seq):
-            if w.loop_ev is None or not isinstance(w.loop_coll, Coll):
-                out.append(f"{w.col}:?")
-                continue
-            lc = _norm_coll(w.loop_coll)
-            order = w.loop_coll.order if w.col == "LB" else None
-            out.append(f"{w.col} over {lc.show()} order={order} := {show_num(w.nvalue)}")
-        return out
-    s0, s1 = schedule(sa[0]), schedule(sa[1])
-    where = sa[1].ref.where()
-    if any(_has_unknown(w.value) or w.unrec for c in sa for w in c.writes):
-        col.undecidable(where, sa[1].ref.short, "a schedule contains a value that is not understood", rule="B8")
-    else:
-        col.check(s0 == s1, where, f"{sa[0].ref.short} ~ {sa[1].ref.short}",
-                  f"schedules equal: {s0} == {s1}", construct="schedule-differs",
-                  necessity="max/min are exact and a+b, a-b see the same operands: equal candidate multisets give bit-identical bounds; "
-                            "any difference in candidate sets, columns, reductions or order makes the two game classes disagree", rule="B8")
-    # ---- B9
+def _check_cache_hygiene(col: Collector, prog: Program, struct: StructInfo | None) -> None:
     col.rule("B9", "the memoised coalition structure is keyed by n only, pure, and never mutated by a caller", 4)
     sref = struct.ref if struct is not None else prog.find_func("bounds._get_sub_super_coalition_structure")
     if sref is None:
@@ -786,6 +785,33 @@ def _check_siblings(ob: _Ob, prog: Program, sa: list[Computer], struct: StructIn
                             "write makes later results depend on call history", rule="B9")
     col.check(ncallers >= 2, sref.where(), sref.short, f"{ncallers} caller(s) of the cached structure analysed", construct="cache-callers",
               necessity="", rule="B9")
+
+
+def _check_siblings(ob: _Ob, prog: Program, sa: list[Computer], struct: StructInfo | None, comps) -> None:
+    col = ob.col
+    # ---- B8
+    col.rule("B8", "after normalisation the write schedules of 'superadditive' and 'superadditive_cached' are equal term for term", 1)
+
+    def schedule(c: Computer) -> list[str]:
+        out = []
+        for w in sorted(c.writes, key=lambda w: w.ev.seq):
+            if w.loop_ev is None or not isinstance(w.loop_coll, Coll):
+                out.append(f"{w.col}:?")
+                continue
+            lc = _norm_coll(w.loop_coll)
+            order = w.loop_coll.order if w.col == "LB" else None
+            out.append(f"{w.col} over {lc.show()} order={order} := {show_num(w.nvalue)}")
+        return out
+    s0, s1 = schedule(sa[0]), schedule(sa[1])
+    where = sa[1].ref.where()
+    if any(_has_unknown(w.value) or w.unrec for c in sa for w in c.writes):
+        col.undecidable(where, sa[1].ref.short, "a schedule contains a value that is not understood", rule="B8")
+    else:
+        col.check(s0 == s1, where, f"{sa[0].ref.short} ~ {sa[1].ref.short}",
+                  f"schedules equal: {s0} == {s1}", construct="schedule-differs",
+                  necessity="max/min are exact and a+b, a-b see the same operands: equal candidate multisets give bit-identical bounds; "
+                            "any difference in candidate sets, columns, reductions or order makes the two game classes disagree", rule="B8")
+    _check_cache_hygiene(col, prog, struct)
     # ---- REG-B
     col.rule("REG-B", "the two registry names map to two distinct computers accepting (game); get_env selects BOUNDS[game_class]; CLI offers BOUNDS.keys()", 4)
     col.check(sa[0].ref.qual != sa[1].ref.qual, sa[0].ref.where(), "bounds.BOUNDS", "the two names map to distinct functions",
